@@ -17,6 +17,7 @@ LEVEL_TEXT = (
     "block-diagonal MLE scale^2 must average to the dense one; (b) componentwise-decoupled fields with first-order linearisation: the "
     "block-diagonal model must equal d independent scalar dense solves; (c) fields whose Jacobian is a multiple of the identity: isotropic "
     "TS1 must equal dense TS1. Orders 1..6, all fixed grids, three strategies, three calibration modes."
+    ' A small-step / high-order class (n = 4..6, h in [1e-3, 1e-2]) is included, where absolute constants in one implementation show.'
 )
 LEVEL_NOTE = "Differential oracle (implementations against each other); comparison scales and attainable accuracy come from the mpmath reference filter/smoother of C02/C03."
 RULE = (
